@@ -23,6 +23,7 @@ type C10Input struct {
 	Hello   bool     `json:"hello"` // lastPushData built as RemoteHello does
 	Tracked []int    `json:"tracked"`
 	BySkip  bool     `json:"by_skip"` // express the subset as a skip list
+	AllowRev bool    `json:"allow_rev,omitempty"` // give the allow list in reverse order
 	T1      []uint64 `json:"t1"`
 	T2      []uint64 `json:"t2"`
 	Q1      uint64   `json:"q1"`
@@ -141,8 +142,14 @@ func c10Exec(in *C10Input) *c10Obs {
 		for _, t := range in.Tracked {
 			allowed = append(allowed, names[t])
 		}
-		if len(in.Tracked) == in.N {
+		if len(in.Tracked) == in.N && !in.AllowRev {
 			allowed = nil
+		}
+		if in.AllowRev {
+			// the order in which the client lists the allowed states must not matter
+			for i, j := 0, len(allowed)-1; i < j; i, j = i+1, j-1 {
+				allowed[i], allowed[j] = allowed[j], allowed[i]
+			}
 		}
 	}
 	srv := arpc.VerifNewTracerServer(m, in.Sync, in.Shallow, false, allowed, skipped)
@@ -302,6 +309,7 @@ func runC10(c *Ctx) error {
 		out.Count("states", fmt.Sprint(in.N))
 		out.Count("tracked", fmt.Sprint(len(in.Tracked)))
 		out.Count("mirror", map[bool]string{true: "custom", false: "faithful"}[in.Custom])
+		out.Count("subset_given_as", map[bool]string{true: "skip list", false: map[bool]string{true: "allow list (reversed)", false: "allow list"}[in.AllowRev]}[in.BySkip])
 		if obs.Upd == nil {
 			out.Count("outcome", "panic")
 		} else if obs.App != nil && obs.App.Accepted {
@@ -363,6 +371,9 @@ func runC10(c *Ctx) error {
 						if in.BySkip && len(tracked) == 0 {
 							in.BySkip = false
 						}
+						if !in.BySkip && len(tracked) > 1 && (dv+par)%2 == 1 {
+							in.AllowRev = true
+						}
 						emit("exhaustive", in)
 						exhaustive++
 					}
@@ -380,6 +391,9 @@ func runC10(c *Ctx) error {
 		tracked := r.Subset(n, 70)
 		in := &C10Input{N: n, Sync: r.Chance(50), Shallow: r.Chance(30),
 			Hello: r.Chance(40), Tracked: tracked, BySkip: r.Chance(50) && len(tracked) > 0}
+		if !in.BySkip && len(tracked) > 1 && r.Chance(50) {
+			in.AllowRev = true
+		}
 		in.T1 = make([]uint64, n)
 		in.T2 = make([]uint64, n)
 		big := r.Chance(25)
